@@ -51,7 +51,7 @@ TsOK(v, x) == v = x \/ (cfgv.ed /\ v <= x)
 NoSub == [mode |-> "", t |-> "", paths |-> {}, uo |-> FALSE, user |-> "", started |-> FALSE, ended |-> FALSE,
           code |-> "", expect |-> "", syncs |-> 0, nall |-> 0, view |-> {}, cand |-> {}, got |-> {},
           w0 |-> 0, clean0 |-> FALSE, tdel |-> FALSE, stalled |-> FALSE, timeouts |-> FALSE,
-          settled |-> FALSE, offers |-> <<>>, deliv |-> <<>>, dels |-> 0, auxkeys |-> {}]
+          settled |-> FALSE, offers |-> <<>>, deliv |-> <<>>, dels |-> 0, auxkeys |-> {}, dupsum |-> 0]
 
 (* counting functions over leaf keys                                        *)
 Inc(f, k, n) == [x \in DOMAIN f \cup {k} |-> (IF x \in DOMAIN f THEN f[x] ELSE 0) + (IF x = k THEN n ELSE 0)]
@@ -157,11 +157,11 @@ TSendUpd ==
            s == sub[e.s]
            x == [t |-> e.t, p |-> e.p, val |-> e.val, ts |-> e.ts, kids |-> e.kids] IN
        /\ SendBase(s, e) = TRUE
-       /\ IF e.aux THEN sub' = [sub EXCEPT ![e.s].nall = @ + 1]
+       /\ IF e.aux THEN sub' = [sub EXCEPT ![e.s] = [@ EXCEPT !.nall = @ + 1, !.dupsum = @ + e.dup]]
           ELSE /\ (x \in vers) = TRUE
                /\ (IF s.mode = "stream" THEN AMatches(s, x) ELSE QMatches(s, x)) = TRUE
                /\ sub' = [sub EXCEPT ![e.s] =
-                            [@ EXCEPT !.nall = @ + 1,
+                            [@ EXCEPT !.nall = @ + 1, !.dupsum = @ + e.dup,
                                       !.view = {v \in @ : Key(v) # Key(x)} \cup {x},
                                       !.got = @ \cup {x},
                                       !.deliv = Inc(@, Key(x), 1 + e.dup)]]
@@ -257,6 +257,42 @@ Conserved(s) ==
 
 LateOf(e, n) == LET i == CHOOSE j \in 1..Len(e.subs) : e.subs[j].s = n IN e.subs[i].late
 
+(* Server statistics (subscribe.WithStats) read at quiescence - beyond the   *)
+(* listed properties: per subscription mode and per requested target, the    *)
+(* active count is the number of RPCs inside Subscribe past the target check *)
+(* and the cumulative count the number that ever got there (an RPC refused   *)
+(* NotFound is counted only if the target vanished after the first check);   *)
+(* a live, unstalled subscriber's client entry names its target, shows an    *)
+(* empty queue and a coalesce count equal to the duplicates reported to it   *)
+(* (at least those, when an ACL filters some dequeued items).                *)
+Card(S) == Cardinality(S)
+StatOf(lst, k) == LET c == {i \in 1..Len(lst) : lst[i].k = k} IN
+                IF c = {} THEN [active |-> 0, total |-> 0] ELSE lst[CHOOSE i \in c : TRUE]
+CountOK(lst, k, sel(_)) ==
+    LET st    == StatOf(lst, k)
+        alive == {n \in DOMAIN sub : sel(sub[n]) /\ sub[n].started /\ ~sub[n].ended}
+        gone  == {n \in DOMAIN sub : sel(sub[n]) /\ sub[n].started /\ sub[n].ended}
+        sure  == {n \in gone : sub[n].code \notin {"NotFound", "Unauthenticated", "InvalidArgument"}}
+        maybe == {n \in gone : sub[n].code = "NotFound" /\ sub[n].mode = "stream"}
+        racy  == {n \in gone : sub[n].timeouts}      \* may have ended while the statistics were read
+    IN /\ st.active >= Card(alive) /\ st.active <= Card(alive) + Card(racy)
+       /\ st.total >= Card(alive) + Card(sure) /\ st.total <= Card(alive) + Card(sure) + Card(maybe)
+IdleOf(e, n) == \E j \in 1..Len(e.subs) : e.subs[j].s = n /\ e.subs[j].idle
+StatsOK(e) ==
+    LET st == e.stats IN
+    /\ \A i \in 1..Len(st.types) : st.types[i].k \in {"stream", "once", "poll"}
+    /\ \A m \in {"stream", "once", "poll"} : CountOK(st.types, m, LAMBDA s : s.mode = m)
+    /\ \A t \in {sub[n].t : n \in DOMAIN sub} \cup {st.targets[i].k : i \in 1..Len(st.targets)} :
+          CountOK(st.targets, t, LAMBDA s : s.t = t)
+    /\ \A i \in 1..Len(st.clients) :
+          LET c == st.clients[i] IN
+          c.s \in DOMAIN sub /\ sub[c.s].started /\ c.t = sub[c.s].t
+          /\ ((~sub[c.s].ended /\ ~sub[c.s].stalled /\ ~sub[c.s].timeouts /\ IdleOf(e, c.s)) =>
+                 (c.qsize = 0 /\ c.coalesce >= sub[c.s].dupsum /\ (cfgv.aclOn \/ c.coalesce = sub[c.s].dupsum)))
+    /\ \A n \in DOMAIN sub :
+          (sub[n].started /\ ~sub[n].ended /\ ~sub[n].stalled /\ ~sub[n].timeouts /\ sub[n].nall >= 1) =>
+             \E i \in 1..Len(st.clients) : st.clients[i].s = n
+
 (* With DIAG=1 in the environment the three aspects of the last line (a     *)
 (* quiesce) are printed; the runner uses them to name the broken property.  *)
 DiagOn == "DIAG" \in DOMAIN IOEnv /\ IOEnv.DIAG = "1"
@@ -271,9 +307,10 @@ TQuiesce ==
                             (Live(sub[n]) /\ sub[n].mode = "stream") => (sub[n].syncs = 1 /\ ConvergedKept(sub[n], proj)),
                  cons |-> \A n \in DOMAIN sub : (Live(sub[n]) /\ sub[n].settled) => Conserved(sub[n]),
                  late |-> \A n \in DOMAIN sub :
-                            (\E j \in 1..Len(Ev.subs) : Ev.subs[j].s = n) => LateOf(Ev, n) = 0] IN
+                            (\E j \in 1..Len(Ev.subs) : Ev.subs[j].s = n) => LateOf(Ev, n) = 0,
+                 stat |-> StatsOK(Ev)] IN
        /\ Diag(a)
-       /\ (a.conv /\ a.cons /\ a.late) = TRUE
+       /\ (a.conv /\ a.cons /\ a.late /\ a.stat) = TRUE
        /\ stable' = [valid |-> TRUE, w |-> wcount, proj |-> proj]
        /\ sub' = [n \in DOMAIN sub |->
                     [sub[n] EXCEPT !.settled = (Live(sub[n]) /\ sub[n].mode = "stream" /\ sub[n].syncs = 1),
